@@ -19,7 +19,7 @@ GROUP_BUILTIN = [("replacement", None), ("replacement", "by_label"), ("replaceme
 
 
 # metric specs: name -> (callable or method name, kwargs builder)
-def _metric(spec, thr, k):
+def _metric(spec, thr, k, d=None):
     """Returns (metric argument, kwargs, reference function(obj) -> array)."""
     name = spec
     if name in ("tpr", "fnr", "tnr", "fpr", "topr", "tonr", "group_fpr", "group_tnr", "group_fnr"):
@@ -58,6 +58,11 @@ def _metric(spec, thr, k):
         # undefined (NaN) on samples without a predicted positive at the threshold
         f = lambda s, threshold: s.cm(threshold).ppv()  # noqa: E731
         return f, dict(threshold=thr), lambda o: np.asarray(o.cm(thr).ppv())
+    if name == "call-int-at-origin":
+        # a clipped difference: the Python int 0 on the original scores, a float on most samples
+        c = float(np.mean(d["pos"])) if d else 0.0
+        f = lambda s, c, k: max(0, (float(np.mean(s.pos)) - c) / 3.0)  # noqa: E731
+        return f, dict(c=c, k=k), lambda o: np.asarray(max(0, (float(np.mean(o.pos)) - c) / 3.0), dtype=float)
     if name == "call-buffer":
         # an out=-style metric: fills one pre-allocated array and returns it (every call the same object)
         buf = np.zeros(thr.shape)
@@ -88,7 +93,8 @@ def _metric(spec, thr, k):
 SCORE_METRICS = ["tpr", "fnr", "fpr", "tonr", "threshold_at_fnr", "threshold_at_tpr", "threshold_at_tnr",
                  "threshold_at_topr", "threshold_at_tar", "auc", "eer", "call-scalar",
                  "call-vector", "call-vector", "call-scalar", "call-matrix", "call-mean", "call-ppv", "call-ppv",
-                 "call-buffer", "call-buffer", "call-named-like-method", "call-named-like-rate"]
+                 "call-buffer", "call-buffer", "call-named-like-method", "call-named-like-rate", "call-int-at-origin",
+                 "call-int-at-origin"]
 GROUP_METRICS = ["group_fpr", "group_tnr", "group_fnr", "fnr", "call-vector", "call-mean"]
 
 
@@ -201,7 +207,7 @@ def _check(case, switch):
     d = case["d"]
     o = _build(d)
     thr = gen.np_array(case["thr"]["flat"], tuple(case["thr"]["shape"]))
-    metric, kw, ref = _metric(case["metric"], thr, case["k"])
+    metric, kw, ref = _metric(case["metric"], thr, case["k"], d)
     ck = case.get("callable_kind", "function")
     if str(case["metric"]).startswith("call-named"):
         ck = "function"  # the point of these specs is the function's own name
